@@ -25,6 +25,22 @@ PROPS = {
     ),
 }
 
+_DB_COMMON = dict(imports=["Acl.Glob", "Server.KV", "Server.DB", "Corr.Run_DB"], case_type="Run_DB.case", shrink_field="ops")
+
+PROPS["C02"] = dict(_DB_COMMON,
+    check="Run_DB.check_C02",
+    technique="Rocq proof (invariant + refinement of the kv.go mutate/undo model to a plain-map specification, all histories) + differential histories on the real db.DB compared in the kernel after every step",
+    level_text=("Machine-checked theorems over all operation histories of the model of db/kv.go: invariant, refinement to the plain-map specification, fresh/never-reused "
+                "version numbers, exact dedupe rule, put-then-retrievable, active version exists and is undeletable, only activate moves it, bytes immutable, failed calls are "
+                "no-ops, frame. The model is tied to the code by generated histories (dedupe, delete-newest-then-put, delete-then-recreate, activate back forced in) run "
+                "on the real database as superuser, with result and full state compared with the model by the kernel after every step."),
+    level_note="Trusted: Coq kernel+VM; differential tie (sampled histories up to 40 steps, 7 names, 13 values); versions < 2^32; values are tokens (the model never inspects a value).",
+    rule=("random+forced operation histories of 4-40 calls on the real db.DB as superuser; one case = one history with result and full state after every step; "
+          "non-trivial if it has at least two successful mutations and one failing call; distinct by operation sequence"),
+    explain="a result or the state served by db.DB differs from the sequential specification model after the last step of this history",
+    assumptions=["the value type is abstract: byte strings are mapped to tokens by exact comparison"],
+)
+
 # properties not (yet) claimed, with the reason
 NOT_APPLICABLE = {
 }
